@@ -686,7 +686,7 @@ def run(ctx):
     ctx.extra['documented_nonsmooth_points'] = {e.name: e.nonsmooth for e in ents if e.nonsmooth}
     exact_crosscheck(ctx, ents, progs)
     # ---------------- B2 + direct oracles on valid points
-    npts = 40 if ctx.thorough else 8
+    npts = 150 if ctx.thorough else 10
     selfbad, selfn, worst = 0, 0, {}
     refr = [e for e in ents if e.group == 'refract']
     todo = [e for e in ents if e.group != 'refract' and e.name in progs] + ([refr[0]] if refr else [])
@@ -742,10 +742,10 @@ def run(ctx):
             apply_oracle(ctx, 'grad', inp, entry=e)
             ctx.case('%s/%s/boundary-%s' % (e.group, e.name, 'in-domain' if 'proven' in inp else 'outside-autograd-safe-domain'), (e.name, label))
     # ---------------- FFT-based entry points
-    for inp in fft_cases(ctx, 120 if ctx.thorough else 40):
+    for inp in fft_cases(ctx, 480 if ctx.thorough else 40):
         bad, res = apply_oracle(ctx, 'fft', inp)
         ctx.case('fft/%s/zp=%s' % (inp['method'], ''.join('TF'[not b] for b in inp['zero_padding'])), ('fft', inp['method'], str(inp['zero_padding']), str(inp['shape']), inp['z']), nontrivial=len(res) >= 6)
-    for inp in propagator_cases(ctx, 12 if ctx.thorough else 4):
+    for inp in propagator_cases(ctx, 32 if ctx.thorough else 4):
         bad, res = apply_oracle(ctx, 'propagator', inp)
         ctx.case('propagator/%s/%s' % (inp['method'], inp['ptype']), ('prop', inp['method'], inp['ptype'], str(inp['shape'])))
     if len(ctx.samples) < 6:
